@@ -558,18 +558,13 @@ func (x *Exec) binop(st *State, ins *ssa.BinOp) Value {
 		return iv(wrapTerm("(* "+a.T+" "+b.T+")", t, false))
 	case token.QUO, token.REM:
 		x.panicObl(st, ins, "div0", "(not (= "+b.T+" 0))", "integer divide by zero")
-		q := st.freshName("q")
-		r := st.freshName("r")
-		st.declare(q, "Int")
-		st.declare(r, "Int")
-		absb := "(ite (>= " + b.T + " 0) " + b.T + " (- " + b.T + "))"
-		if c, ok := constInt(ins.Y); ok && c > 0 {
-			absb = fmt.Sprint(c)
-		}
-		st.assume(fmt.Sprintf("(= %s (+ (* %s %s) %s))", a.T, q, b.T, r))
-		st.assume(fmt.Sprintf("(ite (>= %s 0) (and (<= 0 %s) (< %s %s)) (and (<= %s 0) (< (- %s) %s)))", a.T, r, r, absb, r, r, absb))
+		// Go's truncated division as the functions tquo/trem (so equal operands give equal results);
+		// their defining facts are instantiated here for these operands.
+		q := "(tquo " + a.T + " " + b.T + ")"
+		r := "(trem " + a.T + " " + b.T + ")"
+		st.assume(divFacts(a.T, b.T, t))
 		if ins.Op == token.QUO {
-			return iv(wrapTerm(q, t, true))
+			return iv(q)
 		}
 		return iv(r)
 	case token.SHL, token.SHR:
@@ -761,4 +756,22 @@ func (x *Exec) convert(st *State, ins *ssa.Convert) Value {
 	}
 	st.unsupported(fmt.Sprintf("convert %s -> %s", typeKey(from), typeKey(to)))
 	return Value{}
+}
+
+// divFacts instantiates the definition of Go's truncated division for operands a, b of type t
+// (machine quotient: MinInt / -1 wraps to MinInt with remainder 0).
+func divFacts(a, b string, t types.Type) string {
+	q := "(tquo " + a + " " + b + ")"
+	r := "(trem " + a + " " + b + ")"
+	absb := "(ite (>= " + b + " 0) " + b + " (- " + b + "))"
+	ovf := "false"
+	rng := "true"
+	if lo, _, ok := intRange(t); ok {
+		if lo.Sign() < 0 {
+			ovf = fmt.Sprintf("(and (= %s %s) (= %s (- 1)))", a, smtInt(lo), b)
+		}
+		rng = inRange(q, t)
+	}
+	return fmt.Sprintf("(=> (not (= %s 0)) (and (ite %s (and (= %s %s) (= %s 0)) (= %s (+ (* %s %s) %s))) (ite (>= %s 0) (and (<= 0 %s) (< %s %s)) (and (<= %s 0) (< (- %s) %s))) %s))",
+		b, ovf, q, a, r, a, q, b, r, a, r, r, absb, r, r, absb, rng)
 }
